@@ -78,7 +78,7 @@ ArrSTy  == TyArr(2, TyStruct(<<I32, I8>>))
 \* operand type classes -> the concrete type used for the class
 Concrete == [
   void |-> TyVoid,
-  i1 |-> I1, i8 |-> I8, i16 |-> I16, i32 |-> I32, i64 |-> I64,
+  i1 |-> I1, i8 |-> I8, i16 |-> I16, i32 |-> I32, i64 |-> I64, i128 |-> TyInt(128),
   float |-> F32, double |-> F64,
   ptr |-> TyPtr(I32), ptr8 |-> I8Ptr, ptras1 |-> TyPtrAS(I32, 1),
   pnstruct |-> TyPtr(TyNamed("pair", PairTy)), pnstructas1 |-> TyPtrAS(TyNamed("pair", PairTy), 1),
@@ -146,7 +146,7 @@ Entry(kind, cat, res, tmpl, groups, flags, classes, rty, ctx) ==
 With(e, o) == o @@ e          \* fields of o override those of e
 
 FMF  == <<"nnan", "ninf", "nsz", "arcp", "contract", "afn", "reassoc", "fast">>
-IntC == <<"i32", "i1", "i8", "i64", "vec", "svec">>
+IntC == <<"i32", "i1", "i8", "i64", "vec", "svec", "i16", "vec8", "vec64", "svec64">>
 FpC  == <<"float", "double", "fvec", "sfvec">>
 VecC == <<"vec", "svec", "fvec", "sfvec", "pvec">>
 AggC == <<"struct", "arr", "nstruct", "nested", "nest3", "pnest", "outer", "arrs">>
@@ -187,11 +187,21 @@ Kinds == <<
   \* --- vector -----------------------------------------------------------------
   With(Entry("extractelement", "inst", "value", "{res}extractelement {TV:X}, {TV:Index}",
         <<V("X", "T"), V("Index", "idx")>>, <<>>, VecC, "elemT", "plain"),
-       [variants |-> <<Var([idxty |-> "i32"]), Var([idxty |-> "i64"])>>]),
-  Entry("insertelement", "inst", "value", "{res}insertelement {TV:X}, {TV:Elem}, {TV:Index}",
+       \* the index is of any integer width
+       [variants |-> <<Var([idxty |-> "i32"]), Var([idxty |-> "i64"]), Var([idxty |-> "i8"]), Var([idxty |-> "i16"]),
+                       VarC([idxty |-> "i64"], "svec"), VarC([idxty |-> "i8"], "pvec")>>]),
+  With(Entry("insertelement", "inst", "value", "{res}insertelement {TV:X}, {TV:Elem}, {TV:Index}",
         <<V("X", "T"), V("Elem", "elemT"), V("Index", "idx")>>, <<>>, VecC, "T", "plain"),
-  Entry("shufflevector", "inst", "value", "{res}shufflevector {TV:X}, {TV:Y}, {TV:Mask}",
-        <<V("X", "T"), V("Y", "T"), One(S("Mask", "value", "mask", "const"))>>, <<>>, VecC, "T", "plain"),
+       [variants |-> <<Var([idxty |-> "i64"]), Var([idxty |-> "i8"]), Var([idxty |-> "i16"]),
+                       VarC([idxty |-> "i64"], "sfvec"), VarC([idxty |-> "i16"], "fvec")>>]),
+  \* the mask may be longer or shorter than the operands (the result has the mask's length) and may be
+  \* undef / poison / zeroinitializer
+  With(Entry("shufflevector", "inst", "value", "{res}shufflevector {TV:X}, {TV:Y}, {TV:Mask}",
+        <<V("X", "T"), V("Y", "T"), One(S("Mask", "value", "mask", "const"))>>, <<>>, VecC, "shufT", "plain"),
+       [variants |-> <<Var([masklen |-> "4"]), Var([masklen |-> "1"]), Var([maskform |-> "undef"]), Var([maskform |-> "poison"]),
+                       Var([maskform |-> "zero"]), Var([masklen |-> "4", maskform |-> "zero"]),
+                       VarC([masklen |-> "4"], "fvec"), VarC([masklen |-> "1"], "pvec"),
+                       VarC([masklen |-> "4", maskform |-> "zero"], "svec"), VarC([masklen |-> "1", maskform |-> "undef"], "sfvec")>>]),
   \* --- aggregate --------------------------------------------------------------
   Entry("extractvalue", "inst", "value", "{res}extractvalue {TV:X}{idx}",
         <<V("X", "T")>>, <<>>, AggC, "pathT", "plain"),
@@ -200,8 +210,10 @@ Kinds == <<
   \* --- memory -----------------------------------------------------------------
   With(Entry("alloca", "inst", "value",
         "{res}alloca{f:inalloca} {ty}{TV:NElems|, }{a:align|, align }{a:addrspace|, addrspace(|)}",
-        <<Opt(S("NElems", "value", "i32", "any"))>>, <<"inalloca">>, MemC, "allocaT", "plain"),
-       [variants |-> <<Var([align |-> "8"]), Var([addrspace |-> "1"]), Var([align |-> "16", addrspace |-> "1"])>>]),
+        <<Opt(S("NElems", "value", "cnt", "any"))>>, <<"inalloca">>, MemC, "allocaT", "plain"),
+       \* the element count is of any integer width
+       [variants |-> <<Var([align |-> "8"]), Var([addrspace |-> "1"]), Var([align |-> "16", addrspace |-> "1"]),
+                       Var([cntty |-> "i64"]), Var([cntty |-> "i8"]), Var([cntty |-> "i16"]), VarC([cntty |-> "i64"], "struct")>>]),
   With(Entry("load", "inst", "value",
         "{res}load{f:atomic}{f:volatile} {ty}, {TV:Src}{a:syncscope| syncscope(\"|\")}{a:ordering| }{a:align|, align }",
         <<V("Src", "ptrT")>>, <<"volatile">>, MemC, "T", "plain"),
@@ -237,7 +249,11 @@ Kinds == <<
   With(Entry("getelementptr", "inst", "value", "{res}getelementptr{f:inbounds} {ty}, {TV:Src}{TV*:Indices|, }",
         <<V("Src", "gepsrc"), Many(S("Indices", "index", "gepidx", "any"))>>, <<"inbounds">>,
         <<"arr", "struct", "nstruct", "i32", "pvec", "nest3", "pnest", "outer", "arrs">>, "gepT", "plain"),
-       [cmax |-> [i32 |-> 1, pvec |-> 1, nest3 |-> 4, pnest |-> 3, outer |-> 3, arrs |-> 3]]),
+       [cmax |-> [i32 |-> 1, pvec |-> 1, nest3 |-> 4, pnest |-> 3, outer |-> 3, arrs |-> 3],
+        \* indices of any integer width; a vector index on a scalar base and a scalar index on a vector base
+        variants |-> <<Var([gepidxty |-> "i32"]), Var([gepidxty |-> "i8"]), Var([gepidxty |-> "i16"]),
+                       VarC([gepidxty |-> "i16"], "nest3"), VarC([gepvecidx |-> "1"], "i32"), VarC([gepscalaridx |-> "1"], "pvec"),
+                       VarC([gepscalaridx |-> "1", gepidxty |-> "i32"], "pvec")>>]),
   \* --- conversion -------------------------------------------------------------
   Cast("trunc", "i32",    [i32 |-> I8, i64 |-> I32, i8 |-> I1, vec |-> TyVec(2, I8), svec |-> TySVec(2, I8)]),
   Cast("zext", "i8",     [i8 |-> I32, i1 |-> I32, i32 |-> I64, vec |-> TyVec(2, I64), svec |-> TySVec(2, I64)]),
@@ -267,7 +283,11 @@ Kinds == <<
         <<Pairs1(S("Incs.X", "incoming value", "T", "any"), S("Incs.Pred", "incoming pred", "label", "block"))>>,
         FMF, AnyC, "T", "phi"), [fcls |-> "float"]),
   With(Entry("select", "inst", "value", "{res}select{flags} {TV:Cond}, {TV:ValueTrue}, {TV:ValueFalse}",
-        <<V("Cond", "bool"), V("ValueTrue", "T"), V("ValueFalse", "T")>>, FMF, AnyC, "T", "plain"), [fcls |-> "float"]),
+        <<V("Cond", "bool"), V("ValueTrue", "T"), V("ValueFalse", "T")>>, FMF, AnyC, "T", "plain"),
+       \* a scalar i1 condition also selects between whole vectors
+       [fcls |-> "float",
+        variants |-> <<VarC([scalarcond |-> "1"], "vec"), VarC([scalarcond |-> "1"], "svec"), VarC([scalarcond |-> "1"], "fvec"),
+                       VarC([scalarcond |-> "1"], "pvec"), VarC([scalarcond |-> "1"], "vec64")>>]),
   Entry("freeze", "inst", "value", "{res}freeze {TV:X}", <<V("X", "T")>>, <<>>, AnyC, "T", "plain"),
   With(Entry("call", "inst", "callret",
         "{res}{a:tail|| }call{flags}{a:cc| }{a:retattr| }{a:ptras| addrspace(|)} {fnty} {V:Callee}({args}){a:fnattr| }{bundles}",
@@ -275,6 +295,8 @@ Kinds == <<
        [fcls |-> "float",
         variants |-> <<Var([tail |-> "tail"]), Var([tail |-> "notail"]), Var([cc |-> "fastcc"]), Var([cc |-> "coldcc"]),
                        VarC([retattr |-> "zeroext"], "i32"), Var([fnattr |-> "nounwind"]), Var([variadic |-> "1"]),
+                       \* variadic callee with one fixed parameter: the second argument is a variable argument
+                       Var([variadic |-> "1", fixedargs |-> "1"]), VarC([variadic |-> "1", fixedargs |-> "0"], "i32"),
                        VarC([argattr |-> "signext"], "i32")>>]),
   Entry("va_arg", "inst", "value", "{res}va_arg {TV:ArgList}, {ty}", <<V("ArgList", "i8**")>>, <<>>,
         <<"i32", "double", "ptr", "i64">>, "T", "plain"),
@@ -297,7 +319,7 @@ Kinds == <<
   With(Entry("switch", "term", "none", "switch {TV:X}, {L:TargetDefault} [{cases} ]",
         <<V("X", "T"), Lbl("TargetDefault", "label"),
           Pairs(S("Cases.X", "case value", "T", "const"), S("Cases.Target", "case target", "label", "block"))>>,
-        <<>>, <<"i32", "i8", "i64", "i1">>, "none", "labels"),
+        <<>>, <<"i32", "i8", "i64", "i1", "i16", "i128">>, "none", "labels"),
        [succs |-> <<"TargetDefault", "Cases.Target">>]),
   With(Entry("indirectbr", "term", "none", "indirectbr {TV:Addr}, [{L+:ValidTargets|, }]",
         <<V("Addr", "i8*"), Many(S("ValidTargets", "indirect dest", "label", "block"))>>, <<>>, <<"none">>, "none", "indirectbr"),
@@ -402,10 +424,14 @@ DefaultCfg(e, cls) ==
 
 ----------------------------------------------------------------------------
 (* Types of operand slots *)
-LitTy == [i1 |-> I1, i8 |-> I8, i32 |-> I32, i64 |-> I64, label |-> TyLabel, token |-> TyToken,
+\* the mask of a shufflevector: i32 elements, scalability of the operands, any length
+MaskTy(T, attrs) == [MaskShape(T) EXCEPT !.n = IF Has(attrs, "masklen") THEN (IF attrs.masklen = "4" THEN 4 ELSE 1) ELSE T.n]
+LitTy == [i1 |-> I1, i8 |-> I8, i16 |-> I16, i32 |-> I32, i64 |-> I64, label |-> TyLabel, token |-> TyToken,
           lp |-> LPTy]
 RetOf(cls) == Concrete[cls]
 CalleeTy(cls, nargs, va) == TyPtr(TyFunc(RetOf(cls), SubSeq(ArgTys, 1, nargs), va))
+\* number of fixed parameters of the callee: all arguments, unless the attribute fixedargs says fewer
+FixedArgs(attrs, nargs) == IF Has(attrs, "fixedargs") THEN (IF attrs.fixedargs = "0" THEN 0 ELSE 1) ELSE nargs
 
 \* index paths: the kinds that have one, the paths of a class, the default
 HasPath(e) == e.kind \in {"extractvalue", "insertvalue", "getelementptr"}
@@ -420,7 +446,10 @@ GepElemTy(cls) == IF cls = "pvec" THEN I32 ELSE Concrete[cls]
 \* the aggregate the i-th index (i >= 2) of a getelementptr steps into
 GepLevel(cls, path, i) == PathTy(Concrete[cls], SubSeq(path, 2, i - 1))
 GepIsField(cls, path, i) == cls # "pvec" /\ i >= 2 /\ i <= Len(path) /\ Body(GepLevel(cls, path, i)).k = "struct"
-GepIdxTy(cls, path, i) == IF cls = "pvec" THEN TyVec(2, I64) ELSE IF GepIsField(cls, path, i) THEN I32 ELSE I64
+GepIdxTy(cls, path, i, attrs) ==
+  IF GepIsField(cls, path, i) THEN I32
+  ELSE IF Has(attrs, "gepvecidx") \/ (cls = "pvec" /\ ~Has(attrs, "gepscalaridx")) THEN TyVec(2, I64)
+  ELSE IF Has(attrs, "gepidxty") THEN LitTy[attrs.gepidxty] ELSE I64
 GepResTy(cls, path, n, as) ==
   IF cls = "pvec" THEN Concrete.pvec
   ELSE IF n = 0 THEN TyPtrAS(Concrete[cls], as) ELSE TyPtrAS(PathTy(Concrete[cls], SubSeq(path, 2, n)), as)
@@ -428,19 +457,20 @@ GepResTy(cls, path, n, as) ==
 SlotTy(e, cls, s, i, attrs, nargs, path) ==
   LET T == Concrete[cls] d == s.ty IN
   CASE d = "T" -> T
-    [] d = "bool" -> BoolShape(T)
+    [] d = "bool" -> IF Has(attrs, "scalarcond") THEN I1 ELSE BoolShape(T)
     [] d = "ptrT" -> TyPtrAS(T, ASOf(attrs))
     [] d = "elemT" -> T.e
-    [] d = "mask" -> MaskShape(T)
-    [] d = "idx" -> IF Has(attrs, "idxty") /\ attrs.idxty = "i64" THEN I64 ELSE I32
+    [] d = "mask" -> MaskTy(T, attrs)
+    [] d = "idx" -> IF Has(attrs, "idxty") THEN LitTy[attrs.idxty] ELSE I32
+    [] d = "cnt" -> IF Has(attrs, "cntty") THEN LitTy[attrs.cntty] ELSE I32
     [] d = "pathT" -> PathTy(T, path)
     [] d = "gepsrc" -> GepSrcTy(cls, ASOf(attrs))
-    [] d = "gepidx" -> GepIdxTy(cls, path, i)
+    [] d = "gepidx" -> GepIdxTy(cls, path, i, attrs)
     [] d = "arg" -> ArgTys[i]
     [] d = "clause" -> ClauseTys[i]
     [] d = "callee" -> IF Has(attrs, "calleeptr")      \* a call through a pointer value, possibly in address space 1
-                       THEN [CalleeTy(cls, nargs, Has(attrs, "variadic")) EXCEPT !.as = ASOf(attrs)]
-                       ELSE CalleeTy(cls, nargs, Has(attrs, "variadic"))
+                       THEN [CalleeTy(cls, FixedArgs(attrs, nargs), Has(attrs, "variadic")) EXCEPT !.as = ASOf(attrs)]
+                       ELSE CalleeTy(cls, FixedArgs(attrs, nargs), Has(attrs, "variadic"))
     [] d = "i8*" -> I8Ptr
     [] d = "i8**" -> TyPtr(I8Ptr)
     [] OTHER -> LitTy[d]
@@ -460,13 +490,16 @@ ArgCount(e, cfg) ==
 ResTy(e, cls, cfg, attrs, path) ==
   LET T == Concrete[cls] r == e.rty IN
   CASE r = "T" -> T
+    [] r = "shufT" -> [MaskTy(T, attrs) EXCEPT !.e = T.e]
     [] r = "bool" -> BoolShape(T)
     [] r = "elemT" -> T.e
     [] r = "to" -> IF Has(e.to, cls) THEN e.to[cls] ELSE TyVoid
     [] r = "pathT" -> PathTy(T, path)
     [] r = "allocaT" -> TyPtrAS(T, IF Has(attrs, "addrspace") THEN 1 ELSE 0)
     [] r = "cmpxchgT" -> TyStruct(<<T, I1>>)
-    [] r = "gepT" -> GepResTy(cls, path, cfg.cnt[2], ASOf(attrs))
+    [] r = "gepT" -> IF Has(attrs, "gepvecidx") /\ cfg.cnt[2] > 0      \* a vector index makes a vector of pointers
+                     THEN TyVec(2, GepResTy(cls, path, cfg.cnt[2], ASOf(attrs)))
+                     ELSE GepResTy(cls, path, cfg.cnt[2], ASOf(attrs))
     [] r = "token" -> TyToken
     [] OTHER -> TyVoid
 
